@@ -543,8 +543,18 @@ package mcp
 //@   ensures @a-cursor-is-refused-only-by-the-codec result.1 != nil ==> callResult(unbase64, 1, 1) != nil || (calls(ungob) == 1 && callResult(ungob, 1, 0) != nil)
 //@   ensures result.1 == nil ==> result.0 != nil
 //@   ensures result.1 != nil ==> result.0 == nil
-//@ func encodeCursor
-//@   trusted
+// encodeCursor is the other half (verified, no longer trusted): the whole id goes through the gob encoder into a buffer of
+// this call, the cursor is the base64 rendering of that whole buffer, and an id is refused only when the encoder refuses it.
+//@ func encodeCursor [C17]
+//@   track Encode as gobenc
+//@   track EncodeToString as b64
+//@   track Bytes as bufbytes
+//@   modifies extern
+//@   ensures @the-id-is-encoded-once calls(gobenc) == 1
+//@   ensures @what-is-encoded-is-a-token-of-this-id typeIs(callArg(gobenc, 1, 1), pageToken) && callArg(gobenc, 1, 1).(pageToken).LastUID == uid
+//@   ensures @an-id-is-refused-only-by-the-codec (result.1 != nil) == (callResult(gobenc, 1, 0) != nil)
+//@   ensures @the-cursor-is-the-rendering-of-the-whole-buffer result.1 == nil ==> calls(b64) == 1 && calls(bufbytes) == 1 && result.0 == callResult(b64, 1, 0) && callArg(b64, 1, 1) == callResult(bufbytes, 1, 0)
+//@   ensures @a-refused-id-yields-no-cursor result.1 != nil ==> result.0 == ""
 
 // cursorPtr / nextCursorPtr are field-address accessors on every list params / result type.
 // (every implementation is `return &x.Cursor` / `return &x.NextCursor`: the address of a field is never nil)
